@@ -45,6 +45,13 @@ func Run(prop, tier string) int {
 			n, fs := c12kAll()
 			sum.Clauses["deduct_from_committed_cases(engine K product)"] = n
 			sum.Violations = append(sum.Violations, fs...)
+			ml := 2
+			if tier == "thorough" {
+				ml = 3
+			}
+			n2, fs2 := c12kKeeperAll(ml)
+			sum.Clauses["commit_then_uncommit_cases(engine K product through the real keeper)"] = n2
+			sum.Violations = append(sum.Violations, fs2...)
 		}
 		return Conclude(cfg, sum)
 	}
